@@ -491,7 +491,7 @@ func c10Lookalike(c *Ctx) {
 	lib := &memPkg{Import: libPath, Path: libPath, Files: map[string]string{"l.go": "package pkgspec\n\nfunc Parse() int { return 1 }\n\nvar Default = 2\n"}}
 	srcText := "package src\n\nimport \"" + libPath + "\"\n\nfunc Load() int { return pkgspec.Parse() + pkgspec.Default }\n"
 	names := map[string]string{libPath: "pkgspec", "app/src": "src", "app/dst": "dst"}
-	for _, mode := range []string{"gotypes", "goast"} {
+	for _, mode := range []string{"gotypes", "goast", "goast-retry"} {
 		key := "vendor-lookalike-path|" + mode
 		c.Eval(key, true)
 		u := newUniverse(lib, &memPkg{Import: "app/src", Path: "app/src", Files: map[string]string{"s.go": srcText}})
@@ -501,10 +501,22 @@ func c10Lookalike(c *Ctx) {
 			return
 		}
 		var ds *decorator.Decorator
-		if mode == "gotypes" {
+		switch mode {
+		case "gotypes":
 			ds = decorator.NewDecoratorWithImports(u.fset, "app/src", gotypes.New(info.Uses))
-		} else {
+		case "goast":
 			ds = decorator.NewDecoratorWithImports(u.fset, "app/src", goast.WithResolver(simple.New(names)))
+		default:
+			// the first attempt is refused (the name resolver does not know the library yet); the library
+			// is added and the same parsed file is decorated again through the same resolver
+			partial := map[string]string{"app/src": "src", "app/dst": "dst"}
+			dr := goast.WithResolver(simple.New(partial))
+			if _, err := decorator.NewDecoratorWithImports(u.fset, "app/src", dr).DecorateFile(afs[0]); err == nil {
+				c.Infra("the first attempt of the retry scenario was not refused")
+				return
+			}
+			partial[libPath] = "pkgspec"
+			ds = decorator.NewDecoratorWithImports(u.fset, "app/src", dr)
 		}
 		sf, err := ds.DecorateFile(afs[0])
 		if err != nil {
